@@ -39,7 +39,7 @@ def gates(tier):
         "min_decided": {APIS[0]: 5000 * k, APIS[1]: 5000 * k, APIS[2]: 1500 * k, APIS[3]: 1500 * k},
         "shapes": {c: 5 * k for c in ["names:symbol", "names:int", "names:tuple", "eps_arc", "bytes:2", "bytes:3", "bytes:4",
                                       "truncated-encodings", "spliced-encodings", "recursion:left", "recursion:right", "from_string-operand",
-                                      "multichar-terminal", "sr:Q", "sr:Float", "alphabet:ints", "scale:big-automaton-wide-alphabet"]},
+                                      "multichar-terminal", "sr:Q", "sr:Float", "alphabet:ints", "scale:big-automaton-wide-alphabet", "names:int-equal-to-a-label"]},
         "min_hashseeds": 2,
     }
 
@@ -136,7 +136,9 @@ def gen_case_ints(rng, spec, alpha):
     from rv.gen import automata as GA
 
     m = GA.gen_wfsa(rng, max_states=4, alphabet=alpha, max_arcs=7)
-    m["names"] = [("s", i) for i in range(m["n"])] if rng.random() < 0.5 else [100 + i for i in range(m["n"])]
+    r = rng.random()
+    # plain small integers: a state number equals a label (the integer analogue of from_string's prefix-named states)
+    m["names"] = [("s", i) for i in range(m["n"])] if r < 0.35 else ([100 + i for i in range(m["n"])] if r < 0.6 else list(range(m["n"])))
     R = "Float" if "eps_cycle" in GA.classify_wfsa(m) else rng.choice(["Q", "Float"])
     return {"m": m, "ints": True, "R": R, "maxlen": 3 if spec.get("tier") == "quick" else 4}
 
@@ -152,6 +154,8 @@ def run_case_ints(case, ctx):
 
     m, R = case["m"], case["R"]
     cls = set(GA.classify_wfsa(m)) | {f"sr:{R}", "alphabet:ints", "names:int"}
+    if set(m["names"]) & set(m["alphabet"]):
+        cls.add("names:int-equal-to-a-label")
     ctx.case(codec.fingerprint(case), True, sorted(cls))
     try:
         D = lib.dense_from_case(m, "Q")
